@@ -11,6 +11,7 @@ import (
 	"sort"
 
 	"github.com/Eyevinn/mp4ff/aac"
+	"github.com/Eyevinn/mp4ff/bits"
 	"github.com/Eyevinn/mp4ff/hevc"
 	"github.com/Eyevinn/mp4ff/internal/vsim/ref"
 	"github.com/Eyevinn/mp4ff/internal/vsim/sim"
@@ -352,7 +353,18 @@ func c06Build(r *sim.Run, t *sim.Tape, scheme string, first bool) (*mp4.InitSegm
 			fr := C06Frag{From: len(p.Log), Seq: seq}
 			seq++
 			if t.Chance(400) { // foreign boxes in moof / traf, added through the API
-				if t.Bool() {
+				if t.Chance(300) {
+					// sample groups that have nothing to do with protection: a roll-recovery group (sbgp + sgpd of type
+					// "roll", as AAC pre-roll signalling uses), added through the API as decoded boxes
+					sg := []byte{0, 0, 0, 26, 's', 'g', 'p', 'd', 1, 0, 0, 0, 'r', 'o', 'l', 'l', 0, 0, 0, 2, 0, 0, 0, 1, 0xff, 0xff}
+					sb := []byte{0, 0, 0, 28, 's', 'b', 'g', 'p', 0, 0, 0, 0, 'r', 'o', 'l', 'l', 0, 0, 0, 1, 0, 0, 0, 1, 0, 1, 0, 1}
+					for _, raw := range [][]byte{sb, sg} {
+						if b, err := mp4.DecodeBoxSR(0, bits.NewFixedSliceReader(raw)); err == nil {
+							_ = frag.Moof.Traf.AddChild(b)
+						}
+					}
+					p.Foreign = append(p.Foreign, "traf:sbgp+sgpd(roll)")
+				} else if t.Bool() {
 					b, name := foreignBoxC06(t, rnd, "traf")
 					_ = frag.Moof.Traf.AddChild(b)
 					p.Foreign = append(p.Foreign, "traf:"+name)
